@@ -63,6 +63,13 @@ def check_rank(ctx):
     body = strip_doc(fn.body)
     inner = [s for s in body if isinstance(s, ast.FunctionDef)]
     srt = [s for s in body if isinstance(s, ast.Assign) and isinstance(s.value, ast.Call) and norm_src(s.value.func) == "sorted"]
+    if not srt:
+        # the ordered list may be built right in the loop header: for .. in enumerate(sorted(..)..)
+        for s in body:
+            if isinstance(s, ast.For):
+                for x in ast.walk(s.iter):
+                    if isinstance(x, ast.Call) and norm_src(x.func) == "sorted":
+                        srt.append(ast.Assign(targets=[ast.parse(norm_src(x), mode="eval").body], value=x))
     arg = fn.args.args[1].arg
     ok = len(inner) == 1 and len(srt) == 1
     if ok:
@@ -267,9 +274,9 @@ def descent_loop(fc, pull, cur):
             return False, "the depth counter is modified more than once per iteration"
         ds, entry = CS.FnCtx.reaching(fc, v, fc.cfg.node_of(L))
         ds = [d for d in ds if not any(d[0].ast is x for b in L.body for x in ast.walk(b))]
-        if entry or len(ds) != 1 or ds[0][1][0] != "assign":
+        if entry or len(ds) != 1 or ds[0][1][0] not in ("assign", "unpack"):
             return False, "the depth counter has no single initialisation"
-        start = ds[0][1][1]
+        start = ds[0][1][1] if ds[0][1][0] == "assign" else ast.Name(id=v, ctx=ast.Load())
     if norm_src(bound) != "self.h_max":
         return False, "the descent stops at '%s', not at the depth cap self.h_max" % norm_src(bound)
     # the counter starts at the drawn cell's depth: first component of the drawn (depth, position) pair
